@@ -109,7 +109,7 @@ class Harness(object):
         self.gm = sys.modules['athlib.wma.agegrader']
         mods = [m for n, m in sys.modules.items() if m is not None and (n == 'athlib' or n.startswith('athlib.'))]
         self.locks = sched.instrument_locks(mods)
-        ctx.info['modules_with_threading_proxy'] = sched.proxy_threading(mods)
+        ctx.info['modules_with_threading_proxy_per_shard'] = [sched.proxy_threading(mods)]
         ctx.info['instrumented_locks'] = [l._name for l in self.locks]
         import jsonschema
         self.js = jsonschema
@@ -381,7 +381,7 @@ def run_shard(ctx, spec):
                         pts[(2, rnd.randrange(1, ns[roles[2]] + 1))] = 0
                     h.run_schedule(sc, tuple(roles), pts, ref)
         stress(h, ctx, 12 if ctx.tier == 'quick' else 400, 8, ctx.seed * 31 + spec['i'])
-    ctx.info['distinct_preemption_lines'] = sorted('%s:%s' % p for p in h.points_seen)[:200]
+    ctx.info['distinct_preemption_lines'] = sorted('%s:%s' % p for p in h.points_seen)
     ctx.info['distinct_preemption_line_count'] = len(h.points_seen)
     ctx.require('judged.schedule', 50)
 
